@@ -140,7 +140,9 @@ def tests_of(repo, f, keep=()):
   for n in ctx.g.nodes:
     if n.kind != 'test':
       continue
-    iv, others = search.test_interval(repo, f, n.expr)
+    from mmsa import inline
+    texpr = inline.inline_expr(f, n.expr)
+    iv, others = search.test_interval(repo, f, texpr)
     if iv is None:
       continue
     ivx = expand_iv(ctx.rd, n, iv, keep)
@@ -155,7 +157,10 @@ def is_vacuous(g, n, iv, pname, resolve_at, extra, src=None):
   if n not in reach:
     return True
   res = (lambda nm: resolve_at(n, nm)) if resolve_at else None
-  v = cfgmod.decide_test(n.expr, facts, res)
+  from mmsa import inline
+  fobj = getattr(g, '_funcinfo', None)
+  texpr = inline.inline_expr(fobj, n.expr) if fobj is not None else n.expr
+  v = cfgmod.decide_test(texpr, facts, res)
   return v is not None and v == iv.accept_when
 
 
@@ -217,17 +222,18 @@ def dwc_summary(repo, rep):
     closed = iv.closed_lo and iv.closed_hi
     # must-pass: under kappa not None, no path entry -> `return True` avoiding the accept edge of n
     facts = {P + kappa: 'notnone'}
-    ef = cfgmod.edge_filter_under(g, facts, extra=lambda a, b, lab, n=n, iv=iv: lab != 'exc' and accept_edge_ok(n, iv)(a, b, lab))
+    res_dw = lambda node, e_: ctx.rd.expand(node, e_)[0]
+    ef = cfgmod.edge_filter_under(g, facts, resolve_at=res_dw, extra=lambda a, b, lab, n=n, iv=iv: lab != 'exc' and accept_edge_ok(n, iv)(a, b, lab))
     p = g.path_avoiding(g.entry, lambda m: m in true_rets, lambda m: False, ef)
     passes_n = p is not None and any(x is n for x, _ in p)
     # a path to `return True` that does not go through n at all?
-    p2 = g.path_avoiding(g.entry, lambda m: m in true_rets, lambda m: m is n, cfgmod.edge_filter_under(g, facts, extra=cfgmod.no_exc))
+    p2 = g.path_avoiding(g.entry, lambda m: m in true_rets, lambda m: m is n, cfgmod.edge_filter_under(g, facts, resolve_at=res_dw, extra=cfgmod.no_exc))
     must = p2 is None and p is not None
     e = Enforcement(kappa, n, iv, norm(iv.v), f.loc(n.expr), ok, why, closed)
     e.must = must
     e.func = f
     # vacuity: unreachable when the parameter is None
-    e.vacuous = is_vacuous(g, n, iv, kappa, None, cfgmod.no_exc)
+    e.vacuous = is_vacuous(g, n, iv, kappa, res_dw, cfgmod.no_exc)
     out[kappa] = e
   return f, out
 
@@ -259,7 +265,7 @@ def size_range_function(repo, rep, fname, pname, where):
   ctx = FuncCtx.of(f)
   g, rd = ctx.g, ctx.rd
   facts = {P + pname: 'notnone'}
-  resolve_at = lambda node, nm: rd.resolve(node, nm)
+  resolve_at = lambda node, e_: rd.expand(node, e_)[0]
   ef = cfgmod.edge_filter_under(g, facts, resolve_at=resolve_at, extra=cfgmod.no_exc)
   rd2 = dataflow.Reaching(g, ef)
   reach = g.reachable(g.entry, ef)
@@ -404,7 +410,7 @@ def run_search(repo, rep, name, dwc):
     for kappa in CONSTRAINTS:
       where = '%s' % name
       facts = {P + kappa: 'notnone'}
-      resolve_at = lambda node, nm: view.rd.resolve(node, nm)
+      resolve_at = lambda node, e_: view.rd.expand(node, e_)[0]
       base_ok = lambda a, b, lab: lab != 'exc'
       # (a) in-function range tests on the pushed pair
       want_q = {'treatment_geos_range': 'size:' + T, 'control_geos_range': 'size:' + C}.get(kappa, kappa)
